@@ -50,7 +50,7 @@ func c14R1(c *Ctx) {
 		if len(r.Results) != 2 || !info.Types[ast.Unparen(r.Results[1])].IsNil() {
 			continue
 		}
-		call, ok := ast.Unparen(r.Results[0]).(*ast.CallExpr)
+		call, ok := ast.Unparen(derefExpr(fn, r.Results[0])).(*ast.CallExpr)
 		if !ok || calleeName(info, call) != "Sprintf" || len(call.Args) != 3 {
 			continue
 		}
@@ -61,7 +61,7 @@ func c14R1(c *Ctx) {
 		if identObj(info, call.Args[1]) != params["prefix"] {
 			continue
 		}
-		se, ok := ast.Unparen(call.Args[2]).(*ast.SliceExpr)
+		se, ok := ast.Unparen(derefExpr(fn, call.Args[2])).(*ast.SliceExpr)
 		if !ok || se.Low != nil || se.High == nil {
 			continue
 		}
@@ -70,11 +70,11 @@ func c14R1(c *Ctx) {
 			continue
 		}
 		// sliced value: hex.EncodeToString(h.Sum(nil)) with h := sha1.New()
-		enc, ok := ast.Unparen(se.X).(*ast.CallExpr)
+		enc, ok := ast.Unparen(derefExpr(fn, se.X)).(*ast.CallExpr)
 		if !ok || calleeName(info, enc) != "EncodeToString" || len(enc.Args) != 1 {
 			continue
 		}
-		sum, ok := ast.Unparen(enc.Args[0]).(*ast.CallExpr)
+		sum, ok := ast.Unparen(derefExpr(fn, enc.Args[0])).(*ast.CallExpr)
 		if !ok || len(sum.Args) != 1 || !info.Types[ast.Unparen(sum.Args[0])].IsNil() {
 			continue
 		}
@@ -102,26 +102,36 @@ func c14R1(c *Ctx) {
 	c.Check(okShape, "C14.R1", "VethNameForPod = prefix ++ hex(sha1(…))[:K]", p.Pos(fn.Decl), fn.Key(), `return fmt.Sprintf("%s%s", prefix, hex.EncodeToString(h.Sum(nil))[:K]), nil with h := sha1.New()`, "shape not recognised")
 	// purity: no package-level variables, callees within the allowed set
 	var impure []string
-	ast.Inspect(fn.Decl.Body, func(nd ast.Node) bool {
-		id, ok := nd.(*ast.Ident)
-		if !ok {
+	var scanPure func(f *FuncInfo, depth int)
+	scanPure = func(f *FuncInfo, depth int) {
+		finfo := f.Info()
+		ast.Inspect(f.Decl.Body, func(nd ast.Node) bool {
+			id, ok := nd.(*ast.Ident)
+			if !ok {
+				return true
+			}
+			switch o := finfo.ObjectOf(id).(type) {
+			case *types.Var:
+				if o.Pkg() != nil && o.Parent() == o.Pkg().Scope() {
+					impure = append(impure, "package variable "+id.Name)
+				}
+			case *types.Func:
+				full := o.FullName()
+				switch {
+				case strings.HasPrefix(full, "crypto/sha1."), strings.HasPrefix(full, "encoding/hex."), full == "fmt.Sprintf", strings.HasPrefix(full, "(hash.Hash)."), strings.HasPrefix(full, "(io.Writer)."):
+				default:
+					// a helper of the same package that is itself pure
+					if h := p.FuncOf(o); h != nil && h.Pkg == fn.Pkg && h != f && depth < 2 {
+						scanPure(h, depth+1)
+					} else {
+						impure = append(impure, "call "+full)
+					}
+				}
+			}
 			return true
-		}
-		switch o := info.ObjectOf(id).(type) {
-		case *types.Var:
-			if o.Pkg() != nil && o.Parent() == o.Pkg().Scope() {
-				impure = append(impure, "package variable "+id.Name)
-			}
-		case *types.Func:
-			full := o.FullName()
-			switch {
-			case strings.HasPrefix(full, "crypto/sha1."), strings.HasPrefix(full, "encoding/hex."), full == "fmt.Sprintf", strings.HasPrefix(full, "(hash.Hash)."), strings.HasPrefix(full, "(io.Writer)."):
-			default:
-				impure = append(impure, "call "+full)
-			}
-		}
-		return true
-	})
+		})
+	}
+	scanPure(fn, 0)
 	c.Check(len(impure) == 0, "C14.R1", "VethNameForPod is a pure function of its arguments", p.Pos(fn.Decl), fn.Key(), "callees ⊆ {sha1, hex, fmt.Sprintf, hash.Write/Sum}, no package-level state", strings.Join(impure, "; "))
 	// hashed text mentions namespace, name and ifName
 	okText := false
@@ -341,7 +351,20 @@ func c14R3(c *Ctx) {
 			if len(vs) != 1 {
 				return "?"
 			}
-			call, ok := ast.Unparen(vs[0]).(*ast.CallExpr)
+			src := vs[0]
+			// through a result variable: its only non-constant definition (error paths assign 0)
+			if ro := identObj(info, src); ro != nil {
+				var nonConst []ast.Expr
+				for _, d := range varDefs(fn, ro) {
+					if d.rhs != nil && info.Types[d.rhs].Value == nil {
+						nonConst = append(nonConst, d.rhs)
+					}
+				}
+				if len(nonConst) == 1 {
+					src = nonConst[0]
+				}
+			}
+			call, ok := ast.Unparen(src).(*ast.CallExpr)
 			if !ok || len(call.Args) != 1 {
 				return "?"
 			}
